@@ -40,16 +40,23 @@ type replay struct {
 }
 
 type spec struct {
-	Profile   string   `json:"profile"`
-	Tier      string   `json:"tier"`
-	Seed      uint64   `json:"seed"`
-	From      int      `json:"from"`
-	Count     int      `json:"count"`
-	Out       string   `json:"out"`
-	Replay    *replay  `json:"replay,omitempty"`
-	Replays   []replay `json:"replays,omitempty"`
-	MaxWallS  float64  `json:"max_wall_s,omitempty"`
-	KeepTrace bool     `json:"keep_trace,omitempty"`
+	Profile   string     `json:"profile"`
+	Tier      string     `json:"tier"`
+	Seed      uint64     `json:"seed"`
+	From      int        `json:"from"`
+	Count     int        `json:"count"`
+	Out       string     `json:"out"`
+	Replay    *replay    `json:"replay,omitempty"`
+	Replays   []replay   `json:"replays,omitempty"`
+	MaxWallS  float64    `json:"max_wall_s,omitempty"`
+	KeepTrace bool       `json:"keep_trace,omitempty"`
+	Known     []knownSig `json:"known,omitempty"`
+}
+
+type knownSig struct {
+	Property  string `json:"property"`
+	Kind      string `json:"kind"`
+	Signature string `json:"signature"`
 }
 
 type violation struct {
@@ -67,6 +74,7 @@ type runViolation struct {
 	Schedule  []string        `json:"schedule"`
 	Hash      string          `json:"hash"`
 	Trace     []string        `json:"trace"`
+	Known     bool            `json:"known"`
 }
 
 type sample struct {
@@ -101,6 +109,7 @@ type result struct {
 	Hashes     map[string]string `json:"hashes"`
 	Batch      []batchResult     `json:"batch"`
 	Error      string            `json:"error"`
+	KnownHits  map[string]int    `json:"known_hits"`
 	Rule       string            `json:"rule"`
 	Expect     []string          `json:"expect_probes"`
 	Meta       map[string]string `json:"meta"`
@@ -336,10 +345,11 @@ type agg struct {
 	raceReports      int
 	rule             string
 	expect           []string
+	knownHits        map[string]int
 }
 
 func newAgg() *agg {
-	return &agg{nonTrivial: map[string]struct{}{}, states: map[uint64]struct{}{}, faults: map[string]int{}, probes: map[string]int{}}
+	return &agg{nonTrivial: map[string]struct{}{}, states: map[uint64]struct{}{}, faults: map[string]int{}, probes: map[string]int{}, knownHits: map[string]int{}}
 }
 
 func (a *agg) add(r *result) {
@@ -361,6 +371,9 @@ func (a *agg) add(r *result) {
 	for k, v := range r.Probes {
 		a.probes[k] += v
 	}
+	for k, v := range r.KnownHits {
+		a.knownHits[k] += v
+	}
 	a.stuck += r.Stuck
 	a.budgetHit += r.Budget
 	a.violations = append(a.violations, r.Violations...)
@@ -375,6 +388,13 @@ func runCheck(c *checkCfg) int {
 	defer b.cleanup()
 	buildS := time.Since(start).Seconds()
 	a := newAgg()
+	known := loadKnown()
+	var knownSigs []knownSig
+	for _, k := range known {
+		if k.Status == "known" {
+			knownSigs = append(knownSigs, knownSig{k.Property, k.Kind, k.Signature})
+		}
+	}
 	deadline := time.Now().Add(time.Duration(c.budget * float64(time.Second)))
 	var mu sync.Mutex
 	next := 0
@@ -401,15 +421,17 @@ func runCheck(c *checkCfg) int {
 				if remain < 0.2 {
 					return
 				}
-				r, err := b.runWorker(&spec{Profile: c.profile, Tier: c.tier, Seed: c.seed, From: from, Count: cnt, MaxWallS: remain}, time.Duration(remain+120)*time.Second)
+				r, err := b.runWorker(&spec{Profile: c.profile, Tier: c.tier, Seed: c.seed, From: from, Count: cnt, MaxWallS: remain, Known: knownSigs}, time.Duration(remain+120)*time.Second)
 				mu.Lock()
 				if err != nil {
 					a.workersFailed = append(a.workersFailed, err.Error())
 					stop = true
 				} else {
 					a.add(r)
-					if len(a.violations) > 0 {
-						stop = true
+					for _, v := range r.Violations {
+						if !v.Known {
+							stop = true
+						}
 					}
 				}
 				mu.Unlock()
@@ -425,8 +447,8 @@ func runCheck(c *checkCfg) int {
 		fatal2("no runs were executed")
 	}
 	// violations: group, minimise, verify replay, compare with known findings
-	known := loadKnown()
 	exit := 0
+	printedKnown := map[string]bool{}
 	nviol := 0
 	seen := map[string]bool{}
 	sort.SliceStable(a.violations, func(i, j int) bool { return len(a.violations[i].Schedule) < len(a.violations[j].Schedule) })
@@ -450,13 +472,19 @@ func runCheck(c *checkCfg) int {
 			continue
 		}
 		if kf := matchKnown(known, &v.Violation); kf != nil && kf.Status == "known" {
-			fmt.Printf("KNOWN-FINDING: property=%s %s [%s] replay=%s\n", c.prop, kf.What, v.Violation.Sig, path)
+			fmt.Printf("KNOWN-FINDING: property=%s %s [%s] observed %d times in this batch, replay=%s\n", c.prop, kf.What, v.Violation.Sig, a.knownHits[key], path)
+			printedKnown[kf.Kind+"/"+kf.Signature] = true
 			continue
 		}
 		nviol++
 		fmt.Printf("VIOLATION property=%s replay=%s\n", c.prop, path)
 		fmt.Printf("  kind=%s signature=%q\n  %s\n", v.Violation.Kind, v.Violation.Sig, v.Violation.Detail)
 		exit = 1
+	}
+	for _, k := range known {
+		if k.Property == c.prop && k.Status == "known" && !printedKnown[k.Kind+"/"+k.Signature] {
+			fmt.Printf("KNOWN-FINDING: property=%s %s [%s] (not observed in this batch)\n", c.prop, k.What, k.Signature)
+		}
 	}
 	writeEvidence(c, b, a, nviol, time.Since(start).Seconds(), buildS)
 	fmt.Printf("%s %s: %d runs, %d steps, %.0f simulated s, %d distinct non-trivial histories, %d abstract states, stuck=%d budget-hit=%d, wall %.1fs (build %.1fs), violations=%d\n",
@@ -764,7 +792,7 @@ func head(s []string, n int) []string {
 	return s
 }
 
-var allProfiles = []string{"C01", "C02", "C03", "C04", "C05", "C06", "C07", "C11", "C18"}
+var allProfiles = []string{"C01", "C02", "C03", "C04", "C05", "C06", "C07", "C08", "C09", "C10", "C11", "C18"}
 
 var realComponents = []string{
 	"pike server pipeline assembled by server.Start (error, fresh, responder, cache, proxy middleware)",
